@@ -176,7 +176,8 @@ impl<G: SerializeElement> SerializeElement for Vec<G> {
             where
                 A: SeqAccess<'de>,
             {
-                let mut elems = Vec::with_capacity(seq.size_hint().unwrap_or(0));
+                // The size hint comes from untrusted input: cap the pre-allocation.
+                let mut elems = Vec::with_capacity(seq.size_hint().unwrap_or(0).min(1024));
                 while let Some(elem) = seq.next_element::<DeWrapper<G>>()? {
                     elems.push(elem.0);
                 }
